@@ -68,9 +68,22 @@ EmitItem(reg, p) ==
 
 (* only the blocks of the `rust` backend, prologues and epilogues each in  *)
 (* source order                                                            *)
+(* a braced block may state a second prologue (`pro2`).  CHECKBLOCKS (named deviation, C14): TRUE = the repaired *)
+(* behaviour, every text of the block is kept in source order; FALSE = the parser keeps the last one only         *)
+CHECKBLOCKS == TRUE
+BlockTexts(b, which) ==
+  IF which = "epi" THEN <<b.epi>>
+  ELSE IF "pro2" \in DOMAIN b THEN (IF CHECKBLOCKS THEN <<b.pro, b.pro2>> ELSE <<b.pro2>>)
+  ELSE <<b.pro>>
 Texts(m, which) ==
   LET bs == SelectSeq(m.backs, LAMBDA b : b.name = "rust")
-      ts == [i \in DOMAIN bs |-> IF which = "pro" THEN bs[i].pro ELSE bs[i].epi]
+      ts == Flatten([i \in DOMAIN bs |-> BlockTexts(bs[i], which)])
+  IN SelectSeq(ts, LAMBDA t : t # NoText)
+(* what the description states (the declarative side of C14: "each complete and in source order") *)
+DeclTexts(m, which) ==
+  LET bs == SelectSeq(m.backs, LAMBDA b : b.name = "rust")
+      ts == Flatten([i \in DOMAIN bs |-> IF which = "pro" /\ "pro2" \in DOMAIN bs[i] THEN <<bs[i].pro, bs[i].pro2>>
+                                         ELSE IF which = "pro" THEN <<bs[i].pro>> ELSE <<bs[i].epi>>])
   IN SelectSeq(ts, LAMBDA t : t # NoText)
 
 EmitModule(reg, ptr, m, defs) ==
